@@ -1,7 +1,7 @@
 (** C03 - frame reassembly depends on the bytes received, not on how reads split them. *)
 From Coq Require Import String ZArith List.
 From NX Require Import Bytes Frame Wire Reasm Dispatch_proofs Frame_proofs Reasm_proofs C03_corollaries.
-From NX Require PyLite Src_all Src_serialframe_proofs Src_reasm_proofs.
+From NX Require PyLite Src_all Src_serialframe_proofs Src_reasm_proofs Src_reasm_session.
 Open Scope Z_scope.
 
 (** for every way the transport splits the bytes into reads (any number of empty
@@ -53,7 +53,7 @@ Proof. vm_compute. reflexivity. Qed.
     (buffer, unread chunks) - for every buffer, every chunk list and every fuel above a bound
     linear in the bytes and chunks in flight; the interpreter never runs out of fuel *)
 Section OnSource.
-Import PyLite Src_all Src_serialframe_proofs Src_reasm_proofs.
+Import PyLite Src_all Src_serialframe_proofs Src_reasm_proofs Src_reasm_session.
 Open Scope string_scope.
 
 Theorem C03_read_frame_src : forall fuel prev l,
@@ -70,6 +70,15 @@ Theorem C03_link_read_src : forall n l,
   call_method program (1 + n) (intf l) "read" [] =
   PyLite.Ok (PBytes (fst (read l)), intf (snd (read l))).
 Proof. exact intf_read_spec. Qed.
+
+(** the whole receive loop: calling the interpreted _read_frame again and again (a driver
+    that looks only at the values the interpreter returns: result and receiver) until the
+    link is exhausted yields, for EVERY chunking, the frames of one scan of the concatenation *)
+Theorem C03_chunking_src : forall F chunks,
+  wf_link chunks ->
+  (5 + length (List.concat chunks) + length chunks <= F)%nat ->
+  exists rest, src_recv_all F chunks = Some (fst (scan (List.concat chunks)), rest).
+Proof. exact src_recv_all_scan. Qed.
 End OnSource.
 
 Print Assumptions C03_chunking.
@@ -78,3 +87,4 @@ Print Assumptions C03_one_call_none.
 Print Assumptions C03_back_to_back.
 Print Assumptions C03_after_noise.
 Print Assumptions C03_read_frame_src.
+Print Assumptions C03_chunking_src.
